@@ -2,7 +2,7 @@
    of Model/CodecCheck.v: no Panic, no Hang for every input, linear step bounds. *)
 From Coq Require Import ZArith NArith List Lia ZifyN ZifyNat ZifyBool Bool.
 From Verif Require Import Model.CodecBase Model.CodecPPPoE Model.CodecLcp Model.CodecAuth Model.CodecDhcp6
-  Model.CodecMisc Model.CodecSpec Model.CodecCheck Proofs.CodecBaseProofs Proofs.CodecPPPoEProofs.
+  Model.CodecMisc Model.CodecGlue Model.CodecSpec Model.CodecCheck Proofs.CodecBaseProofs Proofs.CodecPPPoEProofs.
 Import ListNotations.
 Local Open Scope N_scope.
 
@@ -262,6 +262,117 @@ Qed.
 Lemma alg_pass_safe m d : safe (alg_pass m d).
 Proof. unfold alg_pass. destruct (m =? 0); apply safe_ok. Qed.
 
+(* ---- handler glue (Model/CodecGlue.v): nil pointers, lease state, Ethernet framing *)
+Lemma as_ptr_safe r : safe r -> safe (as_ptr r).
+Proof. unfold as_ptr. destruct r; intros [H1 H2]; try congruence; split; discriminate. Qed.
+
+Lemma deref_some {A} (p : option A) a : p = Some a -> deref p = Ok a.
+Proof. intros ->. reflexivity. Qed.
+
+Lemma build_msg_safe os : safe (build_msg os).
+Proof.
+  unfold build_msg. destruct (find_opt os 1); [|apply safe_ok].
+  apply safe_bind; [apply walk_ias_safe|intros; apply safe_ok].
+Qed.
+
+(* buildAdvertise / buildReply return a non-nil message whenever the Client Identifier is present *)
+Lemma build_msg_some os c r : find_opt os 1 = Some c -> build_msg os = Ok r -> r = Some tt.
+Proof.
+  unfold build_msg. intros ->. destruct (walk_ias os) as [[]| | |]; cbn; intros H; inversion H; reflexivity.
+Qed.
+
+(* the lease pointer is non-nil exactly when the map lookup reported a hit *)
+Definition lease_ok (has : bool) (lease : option lease_t) : Prop := has = true -> exists l, lease = Some l.
+
+Lemma walk_addrs2_safe has lease os : lease_ok has lease -> safe (walk_addrs2 has lease os).
+Proof.
+  intros Hl. induction os as [|r tl IH]; cbn [walk_addrs2]; [apply safe_ok|].
+  destruct r as [|code [|ln v]]; try assumption.
+  apply safe_bind; [|intros; assumption].
+  destruct (code =? 5); [|apply safe_ok].
+  pose proof (d6_iaaddr_safe v) as [H1 H2].
+  destruct (d6_iaaddr v); try congruence; try apply safe_ok.
+  destruct has; [|apply safe_ok].
+  destruct (Hl eq_refl) as [l ->]. cbn. apply safe_ok.
+Qed.
+
+Lemma walk_confirm2_safe has lease os : lease_ok has lease -> safe (walk_confirm2 has lease os).
+Proof.
+  intros Hl. induction os as [|r tl IH]; cbn [walk_confirm2]; [apply safe_ok|].
+  destruct r as [|code [|ln v]]; try assumption.
+  apply safe_bind; [|intros; assumption].
+  destruct (code =? 3); [|apply safe_ok].
+  pose proof (d6_ia_safe v) as [H1 H2].
+  destruct (d6_ia v) as [[|h inner]| | |]; try congruence; try apply safe_ok.
+  apply walk_addrs2_safe; assumption.
+Qed.
+
+Lemma d6_handle_st_safe hit la lp nl sd prep d : safe (d6_handle_st hit la lp nl sd prep d).
+Proof.
+  unfold d6_handle_st. apply safe_bind; [apply d6_message_safe|].
+  intros m _. destruct m as [|[|ty r] os]; try apply safe_ok.
+  destruct (find_opt os 1) as [cid|] eqn:Ecid; [|apply safe_ok].
+  set (has := hit && bytes_eqb cid prep).
+  assert (Hl : lease_ok has (if has then Some (la, lp) else None)).
+  { intros H. rewrite H. eauto. }
+  destruct (ty =? 1).
+  { destruct (find_opt os 14).
+    - apply safe_bind; [apply build_msg_safe|]. intros r0 Hr.
+      rewrite (build_msg_some _ _ _ Ecid Hr). cbn. apply safe_ok.
+    - apply safe_bind; [apply build_msg_safe|]. intros [|] _; apply safe_ok. }
+  destruct (ty =? 3).
+  { destruct (find_opt os 2) as [sdat|]; [|apply safe_ok].
+    apply safe_bind; [apply as_ptr_safe, d6_duid_safe|].
+    intros [x|] _; [|apply safe_ok]. cbn [deref bind].
+    destruct (bytes_eqb sdat sd); [|apply safe_ok].
+    apply safe_bind; [apply build_msg_safe|]. intros [|] _; apply safe_ok. }
+  destruct (ty =? 4).
+  { apply safe_bind; [apply walk_confirm2_safe; assumption|intros; apply safe_ok]. }
+  destruct ((ty =? 5) || (ty =? 6)).
+  { destruct has; [|apply safe_ok]. cbn [deref bind].
+    apply safe_bind; [apply build_msg_safe|]. intros [|] _; apply safe_ok. }
+  destruct ((ty =? 8) || (ty =? 9)).
+  { destruct has; [cbn; apply safe_ok|apply safe_ok]. }
+  destruct (ty =? 11); apply safe_ok.
+Qed.
+
+Lemma d6_handle_p_safe p d : safe (d6_handle_p p d).
+Proof. unfold d6_handle_p. apply d6_handle_st_safe. Qed.
+
+Lemma not_owner_view_safe count dsc pt r : safe r -> safe (not_owner_view count dsc pt r).
+Proof.
+  unfold not_owner_view. destruct r; intros [H1 H2]; try congruence; try apply safe_err.
+  destruct (dsc && negb pt); apply safe_ok.
+Qed.
+
+Lemma recv_frame_safe sid au frame tail : safe (recv_frame sid au frame tail).
+Proof.
+  unfold recv_frame. destruct (lenN frame <? 14) eqn:E; [apply safe_ok|].
+  safe_go.
+  - apply handle_discovery_safe.
+  - apply not_owner_view_safe, handle_discovery_safe.
+  - apply handle_session_safe.
+  - apply not_owner_view_safe, handle_session_safe.
+Qed.
+
+(* the receive loop hands the handlers only bytes of the received frame: the stale bytes behind
+   it in the 1522-byte receive buffer never influence the result *)
+Lemma recv_frame_no_overread sid au frame tail : recv_frame sid au frame tail = recv_frame sid au frame [].
+Proof.
+  unfold recv_frame. destruct (lenN frame <? 14) eqn:E; [reflexivity|].
+  rewrite (sub_tail_irrel frame tail 0 6) by lia. rewrite (sub_tail_irrel frame [] 0 6) by lia.
+  rewrite (sub_tail_irrel frame tail 6 12) by lia. rewrite (sub_tail_irrel frame [] 6 12) by lia.
+  rewrite (sub_tail_irrel frame tail 14 (lenN frame)) by lia.
+  rewrite (sub_tail_irrel frame [] 14 (lenN frame)) by lia.
+  destruct (sub0 frame 0 6); cbn [bind]; try reflexivity.
+  destruct (sub0 frame 6 12); cbn [bind]; try reflexivity.
+  destruct (be16 frame 12); cbn [bind]; try reflexivity.
+  destruct (negb (bytes_eqb a bcast_mac) && negb (bytes_eqb a server_mac)); [reflexivity|].
+  destruct (sub0 frame 14 (lenN frame)); cbn [bind]; try reflexivity.
+  destruct (a1 =? 34915); [rewrite handle_discovery_no_overread; reflexivity|].
+  destruct (a1 =? 34916); [rewrite handle_session_no_overread; reflexivity|reflexivity].
+Qed.
+
 (* ---- the dispatcher: every entry point except the session-id allocator (which has its own
    theorem under the table well-formedness hypothesis) *)
 Lemma call_safe e p d tail : e <> 9 -> e <> 14 -> safe (call e p d tail).
@@ -281,6 +392,7 @@ Proof.
   destruct (e =? 12). { apply ip6cp_receive_safe. }
   destruct (e =? 13). { apply auth_receive_safe. }
   destruct (e =? 14) eqn:E14. { apply N.eqb_eq in E14. contradiction. }
+  destruct (e =? 15). { apply recv_frame_safe. }
   destruct (e =? 20). { apply d6_message_safe. }
   destruct (e =? 21). { apply d6_options_safe. }
   destruct ((e =? 22) || (e =? 23)). { apply d6_ia_safe. }
@@ -288,6 +400,7 @@ Proof.
   destruct (e =? 25). { apply d6_iaprefix_safe. }
   destruct (e =? 26). { apply d6_duid_safe. }
   destruct (e =? 27). { apply d6_handle_safe. }
+  destruct (e =? 28). { apply d6_handle_p_safe. }
   destruct (e =? 30). { apply parse_option82_safe. }
   destruct (e =? 31). { apply parse_vendor_safe. }
   destruct (e =? 32). { apply sse_count_safe. }
